@@ -23,10 +23,14 @@ Predicates are propositional formulas over *case variables* with finite domains 
     b:<expr>            bool-valued expression            domain {T, F}
     c:<A>,<B>           comparison of A with B            domain {lt, eq, gt}   (`x > 0`, `a.cmp(&b)`, `==`, `!=`, ...)
     v:<place>           enum variant / literal of a value domain = names mentioned + '*'
-`evaluate(t, valuation)` gives the flat atom list of the path selected by a valuation; `valuations(ts)` enumerates
-the product of the domains of the variables of several templates; `compare(code, ref)` checks that for every
-valuation on which both are defined the two atom lists are equal (literals bytewise, holes by canonical expression
-and format spec, loops structurally) and returns `Mismatch` records (shape in literal|hole-expr|hole-spec|structure).
+`evaluate(t, valuation)` gives the flat atom list of the path selected by a valuation (raises Undefined when no
+branch of an Alt holds); `valuations(ts)` enumerates the product of the domains of the variables of several templates;
+`compare(code, ref_or_list_of_alternatives)` -> (mismatches, n_valuations): for every valuation on which the code and
+at least one alternative are defined the code's atom list must equal that of some alternative (literals bytewise, holes
+by canonical expression and format spec, loops/joins structurally; a reference Join over "*" accepts any collection).
+`Mismatch.shape` is one of literal | hole-expr | hole-spec | structure.  Same-text condition atoms are the same
+variable: callers rely on `Extractor.stable` (no assignment / &mut / non-pure method on an overlapping place) for
+substituted lets; conditions themselves are compared by text on one path only.
 
 Extraction
     Extractor(src, file, fn_item, sinks=None, env=None, depth=0)
@@ -664,7 +668,7 @@ PURE_METHODS = {
     "unwrap_or", "unwrap_or_default", "is_some", "is_none", "is_empty", "len", "iter", "enumerate", "height", "width", "size",
     "cmp", "as_bytes", "as_str", "as_ref", "clone", "cloned", "copied", "map", "contains", "underline", "to_rgba", "chunks",
     "hash", "shape", "data", "get", "into_iter", "to_string", "as_slice", "min", "max", "eq", "ne", "is_ok", "is_err", "rev",
-    "zip", "first", "last", "saturating_sub", "wrapping_sub", "checked_sub", "abs", "unsigned_abs", "kind", "by_ref_none",
+    "zip", "first", "last", "saturating_sub", "wrapping_sub", "checked_sub", "abs", "unsigned_abs", "kind",
 }
 WRITE_MACROS = ("write", "writeln")
 DIVERGING_MACROS = ("panic", "unreachable", "todo", "unimplemented")
